@@ -53,7 +53,9 @@ func TestVerifC07Aac(t *testing.T) {
 			}
 			return false
 		}},
-		{name: "aac.setasc", gen: func(r *vRng) []byte { return []byte{byte(r.pickInt(1, 2, 3, 5, 29))<<3 | byte(r.intn(8)), byte(r.next())} }, run: func(b []byte) bool {
+		{name: "aac.setasc", gen: func(r *vRng) []byte {
+			return []byte{byte(r.pickInt(1, 2, 3, 5, 29))<<3 | byte(r.intn(8)), byte(r.next())}
+		}, run: func(b []byte) bool {
 			d, _ := NewADTS()
 			if err := d.SetASC(b); err != nil {
 				return true
@@ -67,6 +69,14 @@ func TestVerifC07Aac(t *testing.T) {
 			err := a.UnmarshalBinary(b)
 			vC07AacUse(a)
 			return err != nil
+		}},
+		{name: "aac.adts.dec", modelled: true, gen: vC07AacStream, run: func(b []byte) bool {
+			d, _ := NewADTS()
+			_, _, err := d.Decode(b)
+			return err != nil
+		}},
+		{name: "aac.asc.dec", modelled: true, gen: func(r *vRng) []byte { return r.bytes(2 + r.intn(3)) }, run: func(b []byte) bool {
+			return (&AudioSpecificConfig{}).UnmarshalBinary(b) != nil
 		}},
 		// every 2-byte AudioSpecificConfig, exhaustively (thorough tier; see vC07Drive)
 		{name: "aac.asc2", sweep: 2, thoroughOnly: true, run: func(b []byte) bool {
@@ -97,5 +107,5 @@ func TestVerifC07Aac(t *testing.T) {
 			return out
 		}},
 	}
-	vC07Drive(t, decs, helpers, fams, 800, 60000)
+	vC07Drive(t, decs, helpers, fams, 800, 10000)
 }
